@@ -274,16 +274,11 @@ def step (d : DState) (line : String) : DState × String :=
     let n := d.cthreads.length
     let completion := (List.replicate 12 (List.range n)).flatten
     let sys : Sys := { store := d.store, threads := d.cthreads.map (fun c => { todo := c }) }
-    let (sys1, now1) := ids.foldl (fun (acc : Sys × Nat) tok =>
-        if tok == "T" then (acc.1, acc.2 + 1)
-        else if tok.endsWith "~" then
-          match (tok.dropRight 1).toNat? with
-          | some i => (acc.1.step (acc.2 - 1) i, acc.2)
-          | none => acc
-        else
-          match tok.toNat? with
-          | some i => (acc.1.step acc.2 i, acc.2)
-          | none => acc) (sys, d.now)
+    let toks : List Tok := ids.filterMap (fun tok =>
+      if tok == "T" then some Tok.tick
+      else if tok.endsWith "~" then (tok.dropRight 1).toNat?.map Tok.stale
+      else tok.toNat?.map Tok.grant)
+    let (sys1, now1) := sys.runToks d.now toks
     let sys' := sys1.run now1 completion
     let d := { d with now := now1 }
     let res := (List.range n).zip sys'.threads |>.map (fun (i, t) => s!"t{i}=" ++ ",".intercalate (t.results.map canonRes))
